@@ -29,10 +29,21 @@ package types
 //@ frame-only
 
 //@ func (Pool).CalcOutAmtGivenIn
+//@ decabstract
+//@ modifies nothing
+//@ ensures C04/quotes-the-asked-denom: result2 == nil ==> result0.Denom == tokenOutDenom
+
+//@ func (Pool).CalcInAmtGivenOut
+//@ decabstract
+//@ modifies nothing
+//@ ensures C04/quotes-the-asked-denom: err == nil ==> tokenIn.Denom == tokenInDenom
+
+// The weighted-product solver and its power function are pure arithmetic (subject of C03).
+//@ func solveConstantFunctionInvariant
 //@ modifies nothing
 //@ frame-only
 
-//@ func (Pool).CalcInAmtGivenOut
+//@ func Pow
 //@ modifies nothing
 //@ frame-only
 
@@ -46,11 +57,13 @@ package types
 //@ decabstract
 //@ modifies *p.PoolAssets
 //@ ensures C02/shares-untouched: true
+//@ ensures C04/pays-out-the-asked-denom: err == nil ==> tokenOut.Denom == tokenOutDenom
 
 //@ func (*Pool).SwapInAmtGivenOut
 //@ decabstract
 //@ modifies *p.PoolAssets
 //@ ensures C02/shares-untouched: true
+//@ ensures C04/takes-the-asked-denom: err == nil ==> tokenIn.Denom == tokenInDenom
 
 //@ func (*Pool).TVL
 //@ modifies nothing
